@@ -1,4 +1,6 @@
 #include "common.h"
+#include <csignal>
+#include <unistd.h>
 #include "unique_table.h"
 #include <cmath>
 #include <cstdarg>
@@ -473,5 +475,22 @@ void libCleanup() { MEDDLY::cleanup(); }
 static std::vector<Family>& fams() { static std::vector<Family> v; return v; }
 void registerFamily(const char* name, FamilyFn fn, const char* what) { fams().push_back({name, fn, what}); }
 const std::vector<Family>& families() { return fams(); }
+
+// ------------------------------------------------------------------ screening: do not lose the case that crashes
+static void screenCrashHandler(int sig) {
+    Screen& s = SCREEN();
+    if (s.mem) {
+        fflush(s.mem);
+        if (s.buf && s.len) { ssize_t w = write(1, s.buf, s.len); (void) w; }
+    }
+    signal(sig, SIG_DFL);
+    raise(sig);
+}
+void screenInstallCrashFlush() {
+    signal(SIGSEGV, screenCrashHandler);
+    signal(SIGABRT, screenCrashHandler);
+    signal(SIGFPE, screenCrashHandler);
+    signal(SIGBUS, screenCrashHandler);
+}
 
 }  // namespace mdh
